@@ -88,6 +88,9 @@ def mode_table(facts, body, variants):
                 setters.append((bb, name, True if (val.k == "const" and val.v is True) else False if (val.k == "const" and val.v is False) else None))
             elif q == OO + "open":
                 opens.append(bb)
+        if not opens and "OpenOptions" in body.locals[0]["ty"]:
+            # the function hands the configured builder back: its caller opens it
+            opens = [bb for bb in sub if body.term(bb)["k"] == "return"]
         if not opens:
             table[v] = ("silent", "no open on this variant's paths")
             continue
@@ -257,13 +260,42 @@ def durable_write_fns(facts):
     return out
 
 
+def flush_fns(facts):
+    """local methods that ARE a flush: one io::Write::flush call on a field of self whose Ok edge every non-error return
+    passes (e.g. `pub fn flush(&mut self) -> Result<()> { Ok(self.f.flush()?) }`)"""
+    out = set()
+    for b in facts.bodies:
+        if b.kind == "closure" or b.name == "work" or list(b.calls_to(WRITE_ALL)):
+            continue
+        fl = [bb for bb, t in b.calls_to(FLUSH)]
+        if len(fl) != 1 or not self_field_path(b.operand_expr(b.term(fl[0])["args"][0])):
+            continue
+        fsw, fok = ok_edge_of_result(b, fl[0])
+        good = True
+        if fok is None:
+            # `self.f.flush().map_err(..)`: the flush result itself is the return value (mapped)
+            rets = [peel(e) for rb, si, e in assigns_to_return(b)]
+            good = all(any(x.k == "call" and x.bb == fl[0] for x in walk(r)) for r in rets) and bool(rets)
+        else:
+            for rb, si, e in assigns_to_return(b):
+                is_err = (e.k == "agg" and e.variant == "Err") or (e.k == "call" and (e.q or "").endswith("from_residual"))
+                if not is_err and not must_pass_edge(b, rb, (fsw, fok)):
+                    good = False
+        if good:
+            out.add(b.q)
+    return out
+
+
 def rule_r2(facts, col):
     wrappers = durable_write_fns(facts)
+    flushers = flush_fns(facts)
     for body in facts.impl_bodies(BLOCK_TRAIT, "work"):
         if not (body.self_adt or "").startswith("file_sink::"):
             continue
         wa = [bb for bb, t in body.calls_to(WRITE_ALL)]
         fl = [bb for bb, t in body.calls_to(FLUSH)]
+        if not fl and flushers:
+            fl = [bb for bb, t in body.calls_to(flushers)]
         wr = [bb for bb, t in body.calls_to(wrappers)] if wrappers else []
         if wr and not wa and not fl:
             # the helper stands for write_all followed by flush
@@ -285,7 +317,8 @@ def rule_r2(facts, col):
             col.bad("C17.R2", key + ":errors", body.where(wa[0]),
                     "the result of write_all/flush is not checked: a failed write is acknowledged as consumed", {})
             continue
-        if wa[0] != fl[0] and target(wa[0]) != target(fl[0]):
+        fl_is_wrapper = any(q in flushers for q in Body.callee_qs(body.term(fl[0])))
+        if wa[0] != fl[0] and not fl_is_wrapper and target(wa[0]) != target(fl[0]):
             col.bad("C17.R2", key + ":same_file", body.where(fl[0]), "flush and write_all act on different objects", {})
             continue
         eff = effects.Effects(facts, body)
